@@ -311,8 +311,8 @@ func c12Contexts(tier string, seed uint64) []c12Context {
 		r := sub(seed, "C12", "gen", i)
 		f := drawFeatures(r)
 		// small worlds, the workload kinds taken round-robin so that a handful of worlds covers all
-		f.Kinds = []string{allKinds[(3*i)%len(allKinds)], allKinds[(3*i+1)%len(allKinds)], allKinds[(3*i+2)%len(allKinds)]}
-		f.NWorkloads = 3
+		f.Kinds = []string{allKinds[(3*i)%len(allKinds)], allKinds[(3*i+1)%len(allKinds)], "Pod"}
+		f.NWorkloads = 4
 		f.NNamespaces = 2
 		f.NsObjProb = 3
 		f.NNetpols = 2
@@ -520,6 +520,31 @@ func c12Steps(dir string) []job.Step {
 	return st
 }
 
+// c12EvalStep asks, the way the eval command would, about every ordered pair of (up to four) bare pods
+// of the context and about an external address, over all protocols.
+func c12EvalStep(dir string, ctx *c12Context) *job.Step {
+	if len(ctx.pods) < 2 {
+		return nil
+	}
+	pods := ctx.pods
+	if len(pods) > 4 {
+		pods = pods[:4]
+	}
+	st := &job.Step{Kind: job.EvalAll, Dir: dir}
+	for _, a := range pods {
+		for _, b := range pods {
+			if a == b {
+				continue
+			}
+			for _, pr := range []string{"TCP", "UDP", "SCTP"} {
+				st.Queries = append(st.Queries, [4]string{a, b, pr, "80"}, [4]string{a, b, pr, "8080"})
+			}
+		}
+		st.Queries = append(st.Queries, [4]string{"10.1.2.3", a, "TCP", "80"}, [4]string{a, "10.1.2.3", "UDP", "53"}, [4]string{a, "192.168.49.2", "TCP", "443"})
+	}
+	return st
+}
+
 const c12Batch = 16
 
 type c12Hit struct {
@@ -614,6 +639,9 @@ func runC12(tier string, seed uint64) int {
 			dir := fmt.Sprintf("m%02d", k)
 			fs = append(fs, lay.fs(dir, ms[k].docs(ctx))...)
 			steps = append(steps, c12Steps(dir)...)
+			if es := c12EvalStep(dir, ctx); es != nil {
+				steps = append(steps, *es)
+			}
 		}
 		return Run{FS: fs, Job: &job.Job{ID: "c12:" + ctx.name, MapSeed: 1, Steps: steps, GC: true}}
 	}
@@ -642,7 +670,12 @@ func runC12(tier string, seed uint64) int {
 					if e.Panic != nil {
 						st := run.Job.Steps[e.Step]
 						st.Dir, st.Dir1, st.Dir2 = renameDir(st.Dir), renameDir(st.Dir1), renameDir(st.Dir2)
-						hits[bi] = append(hits[bi], c12Hit{m: &ms[e.Step/len(c12Steps("m"))], sig: sigFromFrames(e.Panic.Value, e.Panic.Frames), what: e.Panic.Value, step: &st})
+						perMut := len(run.Job.Steps) / len(ms)
+						h := c12Hit{m: &ms[e.Step/perMut], sig: sigFromFrames(e.Panic.Value, e.Panic.Frames), what: e.Panic.Value, step: &st}
+						if st.Kind == job.EvalAll && e.QueryAt < len(st.Queries) {
+							st.Queries = st.Queries[e.QueryAt : e.QueryAt+1]
+						}
+						hits[bi] = append(hits[bi], h)
 					}
 				}
 			}
@@ -874,6 +907,22 @@ func c12Witness(ctxs []c12Context, h *c12Hit, seed uint64, count int) *Replay {
 			}
 		case job.Diff:
 			cli = []string{"diff", "--dir1", h.step.Dir1, "--dir2", h.step.Dir2}
+		case job.EvalAll:
+			if len(h.step.Queries) == 1 {
+				q := h.step.Queries[0]
+				cli = []string{"eval", "--dirpath", "m"}
+				if i := strings.Index(q[0], "/"); i > 0 {
+					cli = append(cli, "-s", q[0][i+1:], "-n", q[0][:i])
+				} else {
+					cli = append(cli, "--source-ip", q[0])
+				}
+				if i := strings.Index(q[1], "/"); i > 0 {
+					cli = append(cli, "-d", q[1][i+1:], "--destination-namespace", q[1][:i])
+				} else {
+					cli = append(cli, "--destination-ip", q[1])
+				}
+				cli = append(cli, "-p", q[3], "--protocol", strings.ToLower(q[2]))
+			}
 		}
 		if cli != nil {
 			all := make([]int, len(docs))
